@@ -169,6 +169,19 @@ func propC16(c *Ctx) {
 			runSymCase(c, []symReg{{[]rune("<=>"), big}, {[]rune("<="), tokenizers.Symbol}}, []rune(in), 1)
 		}
 	}
+	// characters that share their low 16 bits with a symbol character are other characters; a symbol may begin with any
+	// character, U+FEFF and NUL included
+	for _, in := range [][]rune{{'<', 0x1003d}, {'<', 0x1003d, '>'}, {'<', '=', 0x1003e}, {0x1003c, '='}, {'<', 0x2003d, 0x1003e}, {'<', 0x10003d}} {
+		runSymCase(c, []symReg{{[]rune("<"), tokenizers.Symbol}, {[]rune("<="), tokenizers.Keyword}, {[]rune("<=>"), tokenizers.Special}}, in, 1)
+		runSymCase(c, []symReg{{[]rune("<=>"), tokenizers.Special}}, in, 1)
+	}
+	for _, first := range []rune{0xfeff, 0, 0xfffe, 0x2028, ' ', '\n'} {
+		two := []rune{first, '='}
+		for _, in := range [][]rune{{first, '=', 'x'}, {'=', first, '='}, {first}, {first, first, '='}, {'=', '='}} {
+			runSymCase(c, []symReg{{[]rune("="), tokenizers.Symbol}, {two, tokenizers.Keyword}}, in, 1)
+			runSymCase(c, []symReg{{two, tokenizers.Keyword}, {[]rune("="), tokenizers.Symbol}, {[]rune{first, '=', '='}, tokenizers.Special}}, in, 1)
+		}
+	}
 	for _, neg := range []int{-1, -7, -1 << 40} {
 		for _, in := range []string{"@x", "@@", "@", "@@@", "x@"} {
 			runSymCase(c, []symReg{{[]rune("@"), neg}, {[]rune("@@"), tokenizers.Keyword}}, []rune(in), 1)
